@@ -8,6 +8,7 @@ import (
 	"os/exec"
 	"path/filepath"
 	"regexp"
+	"go/types"
 	"sort"
 	"strconv"
 	"strings"
@@ -139,6 +140,7 @@ func runProperty(repo, prop string, timeoutSec, seed int, smtDir string) (*runRe
 	if err != nil {
 		return nil, err
 	}
+	closureProg = prog
 	rr := &runResult{prog: prog, world: NewWorld()}
 	for _, e := range prog.LoadErrors {
 		rr.bindErrs = append(rr.bindErrs, "load: "+e)
@@ -207,20 +209,93 @@ func runProperty(repo, prop string, timeoutSec, seed int, smtDir string) (*runRe
 	return rr, nil
 }
 
-// calleeKeys: keys of the contracted /repo functions whose contracts the proof of r used.
+// calleeKeys: keys of the contracted /repo functions whose contracts the proof of r used. A proof that used the
+// (assumed) contract of an INTERFACE method of /repo - directly or through a trusted wrapper iface_<I>_<M> - relies on
+// every implementation in /repo honouring it: the contracted implementations T.M are callees too (dynamic dispatch).
 func calleeKeys(r *FuncResult) []string {
 	var out []string
 	for _, c := range r.Callees {
 		k := c
 		if i := strings.Index(k, " ("); i >= 0 {
-			if strings.Contains(k[i:], "no contract") || strings.Contains(k[i:], "ASSUMED") {
+			if strings.Contains(k[i:], "ASSUMED") {
+				out = append(out, implementationsOf(k[:i])...)
+				continue
+			}
+			if strings.Contains(k[i:], "no contract") {
 				continue
 			}
 			k = k[:i]
 		}
+		if j := strings.LastIndex(k, ".iface_"); j >= 0 {
+			if parts := strings.SplitN(k[j+len(".iface_"):], "_", 2); len(parts) == 2 {
+				out = append(out, implementationsOf(k[:j]+"."+parts[0]+"."+parts[1])...)
+			}
+		}
 		out = append(out, k)
 	}
 	return out
+}
+
+// closureProg: the program the closure is computed over (set by runCheck / baseline before calleeKeys is used).
+var closureProg *Program
+
+// implementationsOf: keys of the contracted methods of /repo types that implement the /repo interface method
+// "<pkg>.<Iface>.<Method>".
+func implementationsOf(ifaceMethodKey string) []string {
+	prog := closureProg
+	if prog == nil {
+		return nil
+	}
+	i := strings.LastIndex(ifaceMethodKey, ".")
+	if i < 0 {
+		return nil
+	}
+	method := ifaceMethodKey[i+1:]
+	j := strings.LastIndex(ifaceMethodKey[:i], ".")
+	if j < 0 {
+		return nil
+	}
+	pkgRel, ifaceName := ifaceMethodKey[:j], ifaceMethodKey[j+1:i]
+	var it *types.Interface
+	for _, p := range prog.Pkgs {
+		if relPkg(p.PkgPath) == pkgRel && p.Types != nil {
+			if tn, ok := p.Types.Scope().Lookup(ifaceName).(*types.TypeName); ok {
+				it, _ = tn.Type().Underlying().(*types.Interface)
+			}
+		}
+	}
+	if it == nil {
+		return nil
+	}
+	var out []string
+	for k, fi := range prog.Funcs {
+		if fi.Contr == nil || fi.Obj == nil || fi.Obj.Name() != method {
+			continue
+		}
+		sig, _ := fi.Obj.Type().(*types.Signature)
+		if sig == nil || sig.Recv() == nil {
+			continue
+		}
+		rt := sig.Recv().Type()
+		if types.Implements(rt, it) || types.Implements(types.NewPointer(rt), it) {
+			out = append(out, k)
+		}
+	}
+	sort.Strings(out)
+	return out
+}
+
+// siblingOf: the other half of an invariant's obligation pair (`.entry` <-> `.preserved`). A half whose goal is trivially
+// true on the delivered tree is not generated there (e.g. `done2` right after loop 2), so it is absent from the
+// baseline; the clause itself is in the baseline through its other half, and a failure of either half counts.
+func siblingOf(name string) string {
+	if strings.HasSuffix(name, ".entry") {
+		return strings.TrimSuffix(name, ".entry") + ".preserved"
+	}
+	if strings.HasSuffix(name, ".preserved") {
+		return strings.TrimSuffix(name, ".preserved") + ".entry"
+	}
+	return ""
 }
 
 var invOblRe = regexp.MustCompile(`#F\.inv\[loop(\d+),(\d+)\]\.(entry|preserved)`)
@@ -429,7 +504,7 @@ func cmdCheck(args []string) int {
 		c := byClass[g.class]
 		c[0]++
 		byClass[g.class] = c
-		if inBase[g.name] || (perFunctionClass(g.name) && inBase[sKey(g.name)]) {
+		if inBase[g.name] || inBase[siblingOf(g.name)] || (perFunctionClass(g.name) && inBase[sKey(g.name)]) {
 			violations++
 			path := writeReplay(replayDir, *prop, g, rr, smtDir)
 			suffix := " no-failing-input-found"
@@ -798,6 +873,7 @@ func cmdAxioms(args []string) {
 		fmt.Println(err)
 		os.Exit(2)
 	}
+	closureProg = prog
 	w := NewWorld()
 	for _, c := range prog.Contracts {
 		if c.Fn != nil {
@@ -982,6 +1058,7 @@ func cmdStress(args []string) {
 		fmt.Println(err)
 		os.Exit(2)
 	}
+	closureProg = prog
 	w := NewWorld()
 	var obls []*Obligation
 	for _, c := range prog.Contracts {
